@@ -209,7 +209,10 @@ def shard(args):
                             "chi": [names.get(x, x) for x in d[5]] if len(d) > 5 else None}
                 return str(d)[:300]
             diag = [{"key": list(k), "before": _show(before.get(k)), "after": _show(after.get(k))} for k in changed[:4]]
-            out["violations"].append({"signature": f"C05:baseline-changed:{phase}" + (trig if phase == "success" else ""), "detail": f"simulation {labels} at {kind} ({raised}): {len(changed)}+ attributes differ, e.g. {changed[:3]}",
+            # D5 is about simulations whose *recomputation* raises one of the model's own errors; any other exception
+            # (bookkeeping going wrong while the simulation is being set up or rolled back) is a different defect
+            suffix = trig if phase == "success" else (":" + str(raised) if phase == "raised-during-recomputation" else "")
+            out["violations"].append({"signature": f"C05:baseline-changed:{phase}" + suffix, "detail": f"simulation {labels} at {kind} ({raised}): {len(changed)}+ attributes differ, e.g. {changed[:3]}",
                                       "replay": dict(replay, diagnosis=diag, shard_seed=seed, case_index=i)})
         if "C06" in which:
             if kind in ("first", "interior", "last", "pattern-end") and raised == "other:TypeError":
@@ -360,6 +363,47 @@ def shard(args):
                                               "detail": f"{badx[0].id}: simulated series starts {badx[1].value.index.min()} < {d2} ({back} h before the end of the first usage pattern to end)",
                                               "replay": dict(replay, date=d2.isoformat(), date_kind="pattern-end")})
                     break
+        # a what-if that submits a whole form: fields left as they are (no-op changes, skipped by the engine) before the
+        # fields that change; compared with making the real changes one assignment at a time on an identical model
+        if "C06" in which and i % 4 == 1 and not history.has_shared_job(live.spec):
+            reach_f = eo.reachable_spec_names(live.spec)
+            jobs_f = sorted(j for j, o in live.spec["jobs"].items() if j in reach_f and o.get("cls", "Job") == "Job" and o["data_stored"]["m"] > 0)
+            if jobs_f:
+                jn = rng.choice(jobs_f)
+                jo = live.spec["jobs"][jn]
+                same = [{"op": "setq", "kind": "jobs", "name": jn, "param": p_, "value": copy.deepcopy(jo[p_])} for p_ in ("ram_needed", "compute_needed")]
+                real = [{"op": "setq", "kind": "jobs", "name": jn, "param": "data_stored", "value": {"m": jo["data_stored"]["m"] * 3, "u": jo["data_stored"]["u"]}},
+                        {"op": "setq", "kind": "jobs", "name": jn, "param": "data_transferred", "value": {"m": jo["data_transferred"]["m"] * 2 + 1, "u": jo["data_transferred"]["u"]}}]
+                form = same + real
+                try:
+                    with watchdog(180):
+                        simf = ModelingUpdate(build_changes(live, form), simulation_date=period(live)[0])
+                        simf.set_updated_values()
+                        names_f = live.reachable_names()
+                        simobs = {k: v for k, v in live.rs.observe().items() if k[0] in names_f}
+                        simf.reset_values()
+                        live3 = Live(spec)
+                        for o_ in real:
+                            if live3.apply(o_)[0] != "ok":
+                                raise RuntimeError("real assignment refused")
+                    names3 = live3.reachable_names()
+                    realobs = {k: v for k, v in live3.rs.observe().items() if k[0] in names3}
+                    common = {k for k in simobs if k in realobs}
+                    a = {k: simobs[k] for k in common}
+                    b = {k: realobs[k] for k in common}
+                    sens = sysoracles.ceil_sensitive(spec, a) | sysoracles.ceil_sensitive(spec, b)
+                    if sens:
+                        sens |= {"__system__"}
+                    why = sysoracles.obs_diff(sysoracles.drop_objects(a, sens), sysoracles.drop_objects(b, sens))
+                    out["form_whatifs"] = out.get("form_whatifs", 0) + 1
+                    if why:
+                        out["violations"].append({"signature": "C06:form-simulation-differs-from-real-assignments",
+                                                  "detail": f"what-if submitting {[eo.op_label(o_) for o_ in form]} (the first two unchanged) at the first hour: {why}",
+                                                  "replay": {"spec": spec, "form": form}})
+                except Exception as e:  # noqa
+                    if "lean driver failed" in str(e):
+                        raise
+                    out["form_errors"] = out.get("form_errors", 0) + 1
         out["hashes"].append(eo.sysoracles_hash(spec, [ops, kind]))
         if len(out["samples"]) < 1:
             out["samples"].append({"changes": labels, "date": kind})
